@@ -7,6 +7,8 @@ documents (see the constants below), never from the library under test.
 """
 import struct
 
+from mcx import capture
+
 # --- constants transcribed from the gABI / psABIs (not from elftools) -----------------
 ET_NONE, ET_REL, ET_EXEC, ET_DYN, ET_CORE = 0, 1, 2, 3, 4
 EM_NONE, EM_386, EM_MIPS, EM_MIPS_RS3_LE, EM_PPC64, EM_S390, EM_ARM, EM_X86_64, EM_AARCH64, EM_RISCV, EM_BPF, EM_LOONGARCH = \
@@ -338,6 +340,8 @@ class Img:
                 buf[o:o + f.shsize] = f.shdr(s.name_off, s.type, s.flags, s.addr, s.offset, s.sh_size(), s.link, s.info, s.align, s.entsize)
         if self.trailer:
             buf[self.total - len(self.trailer):] = self.trailer
+        if capture.ACTIVE:
+            raise capture.Captured('elf', (bytes(buf), self))
         return bytes(buf)
 
 
